@@ -302,6 +302,7 @@ type c16kInfo struct {
 // run
 
 func c16kRun(c c16kCase) (*vlib.Failure, c16kInfo) {
+	defer vlib.Guard("C16", c, nil)()
 	var info c16kInfo
 	fail := c16Guard(c, "kfmt early-buffer scenario", func() *vlib.Failure { return c16kBody(c, &info) })
 	return fail, info
